@@ -22,6 +22,7 @@ NAMES = ["x", "y"]
 def skeletons():
     """Enumerate small scope shapes.  Each shape is a list of nested pieces:
     U(name)  use -> push(obs, name) (or a compile error if not visible)
+    A(name)  assignment name = <fresh value>
     L(name)  let name = <fresh value>
     B[...]   block
     F[...]   function statement whose body is [...], called right after its definition
@@ -44,6 +45,13 @@ def skeletons():
         "{pre} let i = 0; while i < 2 {{ i = i + 1; {a} {{ {b} }} {c} }} {post}",
         "{pre} if true {{ {a} }} else {{ {b} }} {c} {post}",
         "{pre} fn f() {{ {a} if true {{ {b} }} {c} }} f(); {post}",
+        # a closure written inside a nested block, capturing that block's bindings; blocks inside the closure
+        "{pre} fn f() {{ {{ {a} let k = fn() {{ {b} {{ {c} }} push(obs, x); }}; k(); }} }} f(); {post}",
+        "{pre} {{ {{ {a} let k = fn() {{ {b} }}; {c} k(); }} }} {post}",
+        "{pre} fn f() {{ if true {{ {a} {{ {b} let k = fn() {{ {c} push(obs, y); }}; k(); k(); }} }} }} f(); {post}",
+        # the enclosing function's own name used from a function nested in it
+        "{pre} fn f(n) {{ {a} let g = fn() {{ {b} if n > 0 {{ return f(n - 1); }} return 7; }}; {c} return g(); }} push(obs, f(1)); {post}",
+        "{pre} let f = fn(n) {{ {a} let g = fn(m) {{ {b} if m > 0 {{ return f(m - 1); }} return 100; }}; {c} if n > 0 {{ return g(n); }} return 7; }}; push(obs, f(2)); {post}",
     ]
     return wrappers, seqs3
 
@@ -57,6 +65,8 @@ class Render:
         if kind == "U":
             return f"push(obs, {name});"
         self.n += 1
+        if kind == "A":
+            return f"{name} = {self.n * 10 + (3 if name == 'x' else 4)};"
         return f"let {name} = {self.n * 10 + (1 if name == 'x' else 2)};"
 
 
@@ -77,15 +87,16 @@ def cases(ctx):
     srcs, tags = [], []
     pres = [[], ["Lx"], ["Lx", "Ly"]]
     posts = [["Ux"], ["Ux", "Uy"]]
-    atoms = ["Ux", "Lx", "Uy", "Ly"]
+    atoms = ["Ux", "Lx", "Uy", "Ly", "Ax", "Ay"]
+    core = ["Ux", "Lx", "Ax", "Uy"]
     for w in wrappers:
         for pre in pres:
             for post in posts:
                 if ctx.thorough():
                     combos = itertools.product(itertools.product(atoms, repeat=2), repeat=3)
                 else:
-                    combos = [tuple(tuple(rng.choice(atoms) for _ in range(rng.randint(1, 2))) for _ in range(3)) for _ in range(40)]
-                    combos += [((x,), (y,), (z,)) for x in atoms for y in atoms for z in atoms]
+                    combos = [tuple(tuple(rng.choice(atoms) for _ in range(rng.randint(1, 2))) for _ in range(3)) for _ in range(60)]
+                    combos += [((x,), (y,), (z,)) for x in core for y in core for z in core]
                 for a, b, c in combos:
                     srcs.append(render(w, pre, list(a), list(b), list(c), post))
                     tags.append("skeleton")
